@@ -85,8 +85,15 @@ def _worker_init():
 def ob_to_dict(ob, res, task, tier):
     d = {'name': ob.name, 'kind': ob.kind, 'tag': ob.tag, 'status': ob.status, 'backend': ob.backend,
          'time': round(ob.time, 4), 'path': list(ob.path_sig), 'exact': ob.exact, 'where': ob.where,
-         'path_sig': hashlib.sha256(('|'.join(ob.path_sig)).encode()).hexdigest()[:12]}
+         'path_sig': hashlib.sha256(('|'.join(ob.path_sig)).encode()).hexdigest()[:12],
+         'ladder': getattr(ob, 'ladder', None)}
     return d
+
+
+def _lemma_info(names):
+    from pyvc.contracts import LEMMAS
+    return [{'name': n, 'axiom': bool(LEMMAS[n].axiom), 'doc': (LEMMAS[n].fn.__doc__ or '').strip()} for n in names
+            if n in LEMMAS]
 
 
 def run_task(spec):
@@ -105,6 +112,7 @@ def run_task(spec):
                                   safety_tag=kw.get('safety_tag', 'aux'), shape=kw.get('shape'))
             out.update(status=res.status, message=res.message, paths=res.paths, source_sha=res.source_sha,
                        contracts_used=res.contracts_used, specs_used=res.specs_used,
+                       lemmas_used=_lemma_info(getattr(res, 'lemmas_used', [])),
                        uninterpreted=res.uninterpreted, writes=[list(w) for w in res.writes],
                        pre_sat=res.pre_sat, solver_time=round(res.solver_time, 3))
             for ob in res.obligations:
@@ -118,7 +126,9 @@ def run_task(spec):
         elif kind == 'lemma':
             from pyvc.lemmas import prove_lemma
             res = prove_lemma(name, timeout_ms=60000 if tier == 'thorough' else 15000)
-            out.update(status=res.status, message=res.message, solver_time=round(res.solver_time, 3))
+            out.update(status=res.status, message=res.message, solver_time=round(res.solver_time, 3),
+                       lemmas_used=_lemma_info(getattr(res, 'lemmas_used', [])),
+                       axiom=getattr(res, 'axiom', None))
             for ob in res.obligations:
                 d = ob_to_dict(ob, res, kw, tier)
                 if ob.status != 'discharged':
@@ -232,6 +242,15 @@ def run_pool(specs, jobs, wall_limit):
     return results
 
 
+def load_baseline(pid):
+    """names of the obligations discharged on the unchanged tree (committed; written only by
+    `./check <id> --update-baseline`, never by a registered command)"""
+    p = ROOT / 'baseline' / f'{pid}.json'
+    if not p.exists():
+        return set()
+    return set(json.loads(p.read_text()).get('discharged', []))
+
+
 def load_known_findings():
     p = ROOT / 'known_findings.json'
     if not p.exists():
@@ -282,7 +301,11 @@ def run_property(prop: Prop, tier='quick', seed=0, jobs=None) -> int:
     untranslatable = []
     replays_dir = ROOT / 'replays'
     replays_dir.mkdir(exist_ok=True)
+    lost = []
     seen_ob = set()
+    axioms_used: Dict[str, str] = {}
+    lemma_tasks = {t.name for t in tasks if t.kind == 'lemma'}
+    baseline = load_baseline(pid)
     for t, r in zip(tasks, results):
         if r['status'] == 'error':
             faults.append(f'{t.key()}: {r["message"]}')
@@ -291,6 +314,16 @@ def run_property(prop: Prop, tier='quick', seed=0, jobs=None) -> int:
             untranslatable.append(f'{t.key()}: {r["message"]}')
             continue
         solver_time += r.get('solver_time', 0) or 0
+        for li in r.get('lemmas_used', []) or []:
+            if li['axiom']:
+                axioms_used[li['name']] = li['doc']
+            elif li['name'] not in lemma_tasks:
+                faults.append(f'{t.key()}: uses lemma {li["name"]} which no task of this property proves')
+        if r['kind'] == 'lemma' and r.get('axiom'):
+            axioms_used[r['name']] = r['axiom']
+            continue
+        if r['kind'] == 'lemma' and not r['obligations']:
+            faults.append(f'{t.key()}: zero obligations generated')
         if r['kind'] == 'fn':
             functions.append({'function': r['name'], 'class': r['kw'].get('self_class'), 'paths': r.get('paths'),
                               'source_sha256_16': r.get('source_sha'), 'pre_sat': r.get('pre_sat'),
@@ -338,7 +371,12 @@ def run_property(prop: Prop, tier='quick', seed=0, jobs=None) -> int:
                 by_backend[ob['backend']] = by_backend.get(ob['backend'], 0) + 1
                 continue
             if ob['status'] == 'unknown':
-                undecided.append({'task': t.key(), 'obligation': ob['name'], 'reason': 'solver unknown/timeout'})
+                if mine and ob['kind'] not in ('pre',) and ob['name'] in baseline:
+                    # discharged on the unchanged tree (committed baseline), not discharged now: reported as a
+                    # violation without a failing input, with the back ends' answers as the verifier's output
+                    lost.append((t, r, ob))
+                else:
+                    undecided.append({'task': t.key(), 'obligation': ob['name'], 'reason': 'solver unknown/timeout'})
                 continue
             # refuted
             rep = ob.get('replay')
@@ -364,6 +402,31 @@ def run_property(prop: Prop, tier='quick', seed=0, jobs=None) -> int:
             else:
                 undecided.append({'task': t.key(), 'obligation': ob['name'],
                                   'reason': 'refuted on an inexact path (loop cut / uninterpreted symbol)'})
+    # ---- obligations lost with respect to the baseline: one more attempt, alone and with the long budget
+    if lost:
+        retry_keys = {}
+        for t, r, ob in lost:
+            retry_keys.setdefault(t.key(), (t, []))[1].append(ob)
+        for key, (t, obs) in retry_keys.items():
+            if os.environ.get('VERIF_NO_RETRY'):
+                rr = None
+            else:
+                rr = run_pool([(t.kind, t.name, t.kw, prop.modules, 'thorough', seed)], 1, wall_limit=1500)[0]
+            still = {}
+            if rr is not None and rr.get('status') == 'ok':
+                for ob2 in rr['obligations']:
+                    if ob2['status'] != 'discharged':
+                        still[(ob2['name'], ob2['path_sig'])] = ob2
+            for ob in obs:
+                ob2 = still.get((ob['name'], ob['path_sig'])) if rr is not None and rr.get('status') == 'ok' else ob
+                if ob2 is None:
+                    n_dis += 1
+                    by_backend['retry'] = by_backend.get('retry', 0) + 1
+                    continue
+                violations.append({'task': key, 'obligation': ob2, 'replay': None, 'found': False,
+                                   'verifier_output': {'status': ob2['status'], 'ladder': ob2.get('ladder'),
+                                                       'goal_excerpt': ob2.get('smt_excerpt'),
+                                                       'note': 'obligation discharged on the unchanged tree (baseline) is no longer discharged'}})
     # ---- verdict
     exit_code = 0
     lines = []
@@ -409,8 +472,23 @@ def run_property(prop: Prop, tier='quick', seed=0, jobs=None) -> int:
         level = 'other'
         coverage['explanation'] = (f'proof incomplete on this run: {n_dis}/{n_ob} obligations discharged, '
                                    f'{len(untranslatable)} functions untranslatable; see bounded_instead')
+    coverage['axioms_assumed'] = [f'{k}: {v}' for k, v in sorted(axioms_used.items())]
     ev = {'property_id': pid, 'tier': tier, 'seed': int(seed), 'level': level, 'coverage': coverage,
-          'assumptions': prop.assumptions, 'wall_s': round(wall, 2), 'violations': vcount}
+          'assumptions': list(prop.assumptions) + [f'axiom {k} (assumed, checked natively only): {v}'
+                                                   for k, v in sorted(axioms_used.items())],
+          'wall_s': round(wall, 2), 'violations': vcount}
+    if os.environ.get('VERIF_UPDATE_BASELINE'):
+        names_all, names_bad = set(), set()
+        for t, r in zip(tasks, results):
+            for ob in r.get('obligations', []) or []:
+                if not isinstance(ob, dict):
+                    continue
+                names_all.add(ob['name'])
+                if ob['status'] != 'discharged':
+                    names_bad.add(ob['name'])
+        (ROOT / 'baseline').mkdir(exist_ok=True)
+        (ROOT / 'baseline' / f'{pid}.json').write_text(json.dumps(
+            {'property': pid, 'discharged': sorted(names_all - names_bad)}, indent=1))
     (ROOT / 'evidence').mkdir(exist_ok=True)
     (ROOT / 'evidence' / f'{pid}.json').write_text(json.dumps(ev, indent=1, default=str))
     for ln in lines:
